@@ -566,6 +566,46 @@ theorem pullEvents_srcOrderedF (cs : CharSpec) (ext : Ext) (input : List Char) :
     rw [(hl x hx).srcSpanF] at hsb
     exact Nat.le_trans hstop (hlow x (List.mem_cons_of_mem _ hx) sb hsb)
 
+/-- with front matter: the event list is the front-matter event followed by events none of which is a
+    front-matter event and whose content spans all start at or after `cooklang_offset`; the YAML text ends at
+    or before it -/
+theorem pullEvents_frontMatter_first (cs : CharSpec) (ext : Ext) (input : List Char) (fm : FrontMatter)
+    (hp : parseFrontmatter cs input = some fm) :
+    ∃ l : List (Ev α), (pullEvents (α := α) cs ext input).1.toList =
+        .frontMatter (Text.fromStr fm.yamlText fm.yamlOffset) :: l ∧
+      (Text.fromStr fm.yamlText fm.yamlOffset).span.stop ≤ fm.cookOffset ∧
+      ∀ ev ∈ l, ev.notFM ∧ ∀ sp, ev.srcSpan = some sp → fm.cookOffset ≤ sp.start := by
+  have hz : Boundary 0 input 0 := Boundary.first
+  have hfm := frontMatterOffsetsOK cs input
+  unfold pullEvents
+  simp only [hp]
+  obtain ⟨⟨pre, h1, h2⟩, h3⟩ := hfm fm hp
+  obtain ⟨pre', mid, e0, o1, o2⟩ := blocks_frontmatter_offsets cs input fm hp
+  have hstop : (Text.fromStr fm.yamlText fm.yamlOffset).span.stop ≤ fm.cookOffset := by
+    rw [orderF_fromStr_span_stop, o1, o2]
+    simp only [utf8Len_append]; omega
+  obtain ⟨l, e, hl⟩ := orderF_foldl_runBlock_notFM (α := α) cs ext false
+    (allBlocks ((lexFrom cs fm.cookOffset fm.cookText).length + 1) (lexFrom cs fm.cookOffset fm.cookText))
+    (#[.frontMatter (Text.fromStr fm.yamlText fm.yamlOffset)], none)
+  have hinv0 : TopInvL (α := α) 0 input fm.cookOffset fm.cookOffset
+      #[.frontMatter (Text.fromStr fm.yamlText fm.yamlOffset)] :=
+    ⟨(topInv_empty fm.cookOffset).pushNone h3 rfl, Nat.le_refl _, by
+      intro ev hev sp hsp
+      simp only [List.mem_singleton] at hev
+      subst hev
+      cases hsp⟩
+  obtain ⟨b', hb'⟩ := foldl_runBlock_evL (α := α) cs ext false
+    (allBlocks ((lexFrom cs fm.cookOffset fm.cookText).length + 1) (lexFrom cs fm.cookOffset fm.cookText))
+    _ hz hinv0 (by
+      apply allBlocks_blocksIn _ _ fm.cookOffset _ (Nat.le_refl _)
+      exact ⟨⟨lexFrom_chain cs _ _, lexFrom_escapedOK cs _ _⟩,
+        ⟨pre, [], by simp [lexFrom_tile, h1], by simp [h2]⟩⟩)
+  have hlow := hb'.low
+  rw [e] at hlow ⊢
+  simp only [Array.toList_append, List.toList_toArray, List.singleton_append,
+    List.cons_append, List.nil_append] at hlow ⊢
+  exact ⟨l, rfl, hstop, fun ev hev => ⟨hl ev hev, hlow ev (List.mem_cons_of_mem _ hev)⟩⟩
+
 /-! ### the metadata-only stream -/
 
 theorem orderF_runMetaBlock_notFM (cs : CharSpec) (ext : Ext) (b : List Tok)
